@@ -210,6 +210,24 @@ mod verif_kani {
         check_cast_tail(un(cast_to_name(Expression::nil())));
     }
 
+    //@harness props=C04,C12 kind=bounded fns=BinaryExpression::set_operator,Token::replace_with_content bound="all 16 x 16 (old, new) operator pairs; operands `nil`; the operator token carries a symbolic line (all usize) in either line-carrying position" budget=400
+    //@ desc="BinaryExpression::set_operator(op): the operator changes, and the operator token keeps its recorded line and now reads as the new operator's text (or is untouched when the operator does not change)"
+    #[kani::proof]
+    #[kani::unwind(4)]
+    fn vk_binary_set_operator_keeps_line() {
+        let old = any_binop();
+        let new = any_binop();
+        let line: usize = kani::any();
+        let token = if kani::any() { Token::new_with_line(0, 1, line) } else { Token::from_position(crate::nodes::Position::line_number("x", line)) };
+        let mut e = BinaryExpression::new(old, Expression::nil(), Expression::nil()).with_token(token);
+        e.set_operator(new);
+        assert!(lvl(e.operator()) == lvl(new) && crate::verif_spec::rassoc(e.operator()) == crate::verif_spec::rassoc(new), "the operator is the new one (same class)");
+        let t = e.get_token();
+        assert!(t.is_some() && t.unwrap().get_line_number() == Some(line), "C04: changing the operator keeps the token on its recorded line");
+        kani::cover!(lvl(old) != lvl(new));
+        core::mem::forget(e);
+    }
+
     //@harness props=C02 kind=mustfail fns=BinaryOperator::left_needs_parentheses
     //@ desc="vacuity witness: the false claim `left_needs_parentheses is true for every binary child` must be refuted"
     #[kani::proof]
